@@ -370,6 +370,10 @@ F('keydoor key beyond the wall', ['C13'], ['C13.R3'], RS,
 F('crossing raises RuntimeError', ['C13'], ['C13.R1'], RS,
   "        raise ValueError(f'number of rivers ({num_rivers}) must be positive')",
   "        raise RuntimeError(f'number of rivers ({num_rivers}) must be positive')")
+F('room passages may fall on a wall junction or the outer wall', ['C13'], ['C13.R5'], RS,
+  '            x = rng.integers(x_from + 1, x_to)', '            x = rng.integers(x_from, x_to)')
+F('room passages in the vertical walls may reach the last row', ['C13'], ['C13.R5'], RS,
+  '            y = rng.integers(y_from + 1, y_to)', '            y = rng.integers(y_from + 1, y_to + 1)')
 F('memory beacon of the wrong colour', ['C13'], ['C13.R3'], RS,
   '    grid[shape.height - 2, 1] = Beacon(color_good)', '    grid[shape.height - 2, 1] = Beacon(color_bad)')
 F('memory_rooms agent is element 1', ['C13'], ['C13.R3'], RS,
